@@ -61,6 +61,7 @@ func main() {
 	replay := flag.String("replay", "", "replay file: re-evaluate that obligation's property and print the obligation")
 	selfcheck := flag.Bool("selfcheck", false, "run the seeded-break self-validation for the property")
 	list := flag.Bool("list", false, "list obligations with verdicts")
+	archive := flag.Bool("archive", false, "replay the archived sub-agent changes of the property in memory (part of the thorough tier)")
 	trm := flag.String("term", "", "print the E7 terms of the results of module functions whose key contains this string")
 	bnd := flag.String("bounds", "", "evaluate the bounds obligations of module functions whose key contains this string")
 	dump := flag.String("dump", "", "print the SSA of module functions whose key contains this string")
@@ -142,6 +143,11 @@ func main() {
 		rc := runProp(info, *repo, *verif, *tier, seed, *list)
 		if rc == 0 && *selfcheck || rc == 0 && *tier == "thorough" {
 			if src := runSeeds(info, *repo, *verif); src != 0 {
+				rc = src
+			}
+		}
+		if rc == 0 && (*archive || *tier == "thorough") {
+			if src := runArchive(info, *repo, *verif); src != 0 {
 				rc = src
 			}
 		}
